@@ -124,3 +124,70 @@ def constructor_dtype(ctx, idx, rule, d, r):
     ok = dt is not None and ((isinstance(dt, ast.Name) and dt.id in names) or _kw_read(dt, kw)[0] == tp)
     ctx.ob(rule, con, d.module.rel, c.lineno, ok, "dtype=%s flows from the %s parameter" % (K.src(dt), tp) if ok else
            "the returned array is constructed %s: the requested element type is ignored" % ("without dtype=" if dt is None else "with dtype=%s, which does not come from `%s`" % (K.src(dt), tp)))
+
+
+def inputs_evaluated_before_open(ctx, idx, rule, d, why):
+    """Writers: on every path to the call that opens the output for writing, the results of all written commands have been
+    read (a comprehension / loop over the whole command list reading `.result`).  Evaluation is lazy - a result read for the
+    first time after the open runs its producer then: a Read of the same file finds it truncated, and a producer that fails
+    leaves a half-written output behind."""
+    import ast
+
+    from . import common as K
+    from engine.index import own_nodes
+    from engine.report import AnalysisError
+
+    fi = d.execute
+    cfg = K.cfg_of(idx, fi)
+    lists = [nm for nm, (k, _) in d.ref_inputs().items() if k == "cmdlist"]
+    if not lists:
+        raise AnalysisError("%s: %s declares no list of results to write" % (rule, d.cls.name))
+
+    def opens_for_write(c):
+        q = (idx.qualname(fi.module, c.func, fi) or K.src(c.func)).split(".")[-1]
+        if q not in ("open", "Dataset", "File"):
+            return False
+        mode = c.args[1] if len(c.args) > 1 else next((k.value for k in c.keywords if k.arg == "mode"), None)
+        return isinstance(mode, ast.Constant) and isinstance(mode.value, str) and mode.value[:1] in ("w", "a", "x")
+
+    opens = [n for n in cfg.find("call") if opens_for_write(n.ast)]
+    if not opens:
+        raise AnalysisError("%s: the call that opens the output of %s for writing was not found" % (rule, d.cls.name))
+    # names bound to the command list
+    listnames = set()
+    for n in own_nodes(fi.node):
+        if isinstance(n, ast.Assign) and len(n.targets) == 1 and isinstance(n.targets[0], ast.Name) and isinstance(n.value, ast.Subscript) and isinstance(n.value.slice, ast.Constant) and n.value.slice.value in lists:
+            listnames.add(n.targets[0].id)
+
+    def whole_list(it):
+        return (isinstance(it, ast.Name) and it.id in listnames) or (isinstance(it, ast.Subscript) and isinstance(it.slice, ast.Constant) and it.slice.value in lists)
+
+    evals = set()
+    for n in own_nodes(fi.node):
+        if isinstance(n, (ast.ListComp, ast.GeneratorExp)) and len(n.generators) == 1 and whole_list(n.generators[0].iter) and not n.generators[0].ifs and isinstance(n.generators[0].target, ast.Name):
+            v = n.generators[0].target.id
+            if any(isinstance(x, ast.Attribute) and x.attr == "result" and isinstance(x.value, ast.Name) and x.value.id == v for x in ast.walk(n.elt)) and isinstance(n, ast.ListComp):
+                evals.add(n)
+        if isinstance(n, ast.For) and whole_list(n.iter) and isinstance(n.target, ast.Name):
+            v = n.target.id
+            if n.body and any(isinstance(x, ast.Attribute) and x.attr == "result" and isinstance(x.value, ast.Name) and x.value.id == v for x in ast.walk(n.body[0])):
+                evals.add(n)
+    def innermost(e_):
+        best = None
+        for st in own_nodes(fi.node):
+            if isinstance(st, ast.stmt) and any(e_ is y for y in ast.walk(st)):
+                inner = [b for f_ in ("body", "orelse", "finalbody", "handlers") for b in (getattr(st, f_, None) or []) if isinstance(b, ast.AST)]
+                if any(e_ is y for b in inner for y in ast.walk(b)):
+                    continue  # e_ lies in a nested statement, not in this one's own header
+                best = st
+        return best
+
+    stmts_ = {id(innermost(e_)) for e_ in evals if innermost(e_) is not None}
+    ev_nodes = {x for x in cfg.nodes if x.stmt is not None and id(x.stmt) in stmts_}
+    for o in opens:
+        con = "%s.execute::results-evaluated-before-open" % d.key
+        after_o = cfg.reachable(o)
+        before = {x for x in ev_nodes if x is not o and x not in after_o and o in cfg.reachable(x)}
+        ok = bool(before) and cfg.must_pass_through(cfg.entry, o, before)
+        ctx.ob(rule, con, d.module.rel, o.line, ok, "every written result is read before `%s`" % K.src(o.ast)[:50] if ok else
+               "`%s` opens (and truncates) the output before the results to be written have been read: %s" % (K.src(o.ast)[:50], why))
